@@ -262,6 +262,9 @@ def stepping_problems(sl, probes, what):
     return bad
 
 
+STEPPING_SIGS = {'first-last', 'next-not-nearest', 'prev-not-nearest', 'has-wrong'}
+
+
 def directory_problems(ls, seen, now, probes):
     """[(signature, text)] — empty iff the directory satisfies the property's statement"""
     bad = []
@@ -368,8 +371,15 @@ class HistoryRunner:
             chk.violation('getter-raises:' + type(ex).__name__,
                           'a public getter raised {!r}'.format(ex), self.replay(hist, probes))
             return False
+        # the first complaint about the directory and the first about stepping: the further
+        # ones on the same state are consequences of the same defect
+        shown = set()
         for sig, text in bad:
-            chk.violation(sig, text, self.replay(hist, probes))
+            kind = 'stepping' if sig in STEPPING_SIGS else 'directory'
+            if kind not in shown:
+                shown.add(kind)
+                chk.violation(sig, text + (' (+{} further complaints on this state)'.format(
+                    len(bad) - 1) if len(bad) > 1 else ''), self.replay(hist, probes))
         self.pending.append((('ls.run', ['last', len(probes)] + list(probes) + ops_args(hist)),
                              obs + ';inv', (stream, list(hist))))
         self.pending.append((('ls.inv', inv), 'true inv', (stream + ':invB', list(hist))))
@@ -396,7 +406,7 @@ class HistoryRunner:
                 if not model_answer.startswith('true'):
                     self.stats['invB_on_impl_false'] += 1
                     self.chk.violation(
-                        'invB-false-on-implementation-state:' + model_answer.split(' ', 1)[-1],
+                        'invB-false-on-implementation-state',
                         'the proved consistency checker rejects the implementation\'s directory: '
                         + model_answer, self.replay(case[1], []))
             elif impl_answer != model_answer:
@@ -653,7 +663,7 @@ def iteration_streams(chk, SortedList, stats):
                         chk.violation('iteration-raises:' + type(ex).__name__, repr(ex), replay)
                         continue
                     problems = iteration_problems(base, forward, dict(zip(base, sched)), visited, ended)
-                    for sig, text in problems:
+                    for sig, text in problems[:1]:
                         chk.violation(sig, text, replay)
                     if any(t is not None for t in sched):
                         chk.nontrivial_case(('it', tup, sched, forward))
@@ -696,86 +706,102 @@ def iteration_problems(base, forward, removed_after, visited, ended):
 
 
 # ---------------------------------------------------------------- the VM's discovery instructions
-def vm_iteration_streams(chk, impl, stats):
-    """`disc`/`dnext`/`discm`/`dnextm` of the real VmDiscover on the real directory, lights
-    expiring between steps"""
+def run_vm_iteration(impl, case):
+    """one iteration through the real VmDiscover as the VM's loop code drives it: `disc`/`discm`,
+    then `dnext`/`dnextm` from the current name until the result is NULL; after
+    `expire_after_visits` visits the clock advances, only `stays` is seen again and everything
+    else expires.  Returns ([(signature, text)], visited, whether anything expired mid-way)."""
     from bardolph.vm.call_stack import CallStack
     from bardolph.vm.machine import Registers
     from bardolph.vm.vm_codes import Operand
     from bardolph.vm.vm_discover import VmDiscover
+    snap = [tuple(e) for e in case['population']]
+    stay = [tuple(e) for e in case['stays']]
+    what, container = case['iterate'], case['container']
+    forward, gone_after = case['forward'], case['expire_after_visits']
+    impl.fresh()
+    impl.apply(('D', snap))
+    reg = Registers()
+    reg.disc_forward = forward
+    vm = VmDiscover(CallStack(), reg)
+    reg.operand = {'light': Operand.LIGHT, 'group': Operand.GROUP, 'location': Operand.LOCATION,
+                   'group-members': Operand.GROUP, 'location-members': Operand.LOCATION}[what]
+    which = 1 if what.startswith('group') else 2
+
+    def remaining_now():
+        if what == 'light':
+            return sorted(impl.seen)
+        if what in ('group', 'location'):
+            return sorted({v[which - 1] for v in impl.seen.values()})
+        return sorted(k for k, v in impl.seen.items() if v[which - 1] == container)
+    at_start = remaining_now()
+    visited = []
+    try:
+        if what.endswith('members'):
+            vm.discm(container)
+        else:
+            vm.disc()
+        while reg.result is not Operand.NULL:
+            visited.append(reg.result)
+            if len(visited) > len(at_start) + 2:
+                break
+            if len(visited) == gone_after:
+                impl.apply(('A', 5))
+                impl.apply(('R', stay, 2))
+            if what.endswith('members'):
+                vm.dnextm(container, visited[-1])
+            else:
+                vm.dnext(visited[-1])
+    except Exception as ex:  # noqa
+        return ([('vm-iteration-raises:' + type(ex).__name__,
+                  'iterating {} ({!r}): {!r}'.format(what, container, ex))], visited, False)
+    expired_midway = bool(gone_after) and gone_after <= len(visited)
+    remaining = remaining_now() if expired_midway else at_start
+    bad = []
+    if len(visited) > len(at_start) + 2:
+        bad.append(('vm-iteration-does-not-terminate', 'visited {!r}'.format(visited)))
+    if len(set(visited)) != len(visited):
+        bad.append(('vm-iteration-visits-twice', 'visited {!r}'.format(visited)))
+    for v in remaining:
+        if v in at_start and visited.count(v) != 1:
+            bad.append(('vm-iteration-misses-remaining',
+                        'iterating {} {}: {!r} remains but the visits were {!r}'.format(
+                            what, 'forward' if forward else 'backward', v, visited)))
+    return bad, visited, expired_midway and len(stay) < len(snap)
+
+
+def vm_iteration_streams(chk, impl, stats):
+    """`disc`/`dnext`/`discm`/`dnextm` of the real VmDiscover on the real directory, lights
+    expiring between steps"""
     rng = chk.rng
     n = 0
-    for _ in range(1500 if chk.thorough else 300):
+    for _ in range(3000 if chk.thorough else 1000):
         names = rng.sample(NAME_POOL, rng.randint(1, 4))
         groups = rng.sample(NAME_POOL, 2)
         locs = rng.sample(NAME_POOL, 2)
         snap = [(nm, rng.choice(groups), rng.choice(locs)) for nm in names]
         stay = [e for e in snap if rng.random() < 0.6]
-        gone_after = rng.randint(0, len(names))
-        forward = rng.random() < 0.5
         what = rng.choice(['light', 'group', 'location', 'group-members', 'location-members'])
-        impl.fresh()
-        impl.apply(('D', snap))
-        reg = Registers()
-        reg.disc_forward = forward
-        vm = VmDiscover(CallStack(), reg)
-        reg.operand = {'light': Operand.LIGHT, 'group': Operand.GROUP, 'location': Operand.LOCATION,
-                       'group-members': Operand.GROUP, 'location-members': Operand.LOCATION}[what]
-        which = 1 if what.startswith('group') else 2
-        container = snap[0][which]
-        replay = {'kind': 'vm_iteration', 'population': snap, 'stays': stay, 'iterate': what,
-                  'container': container, 'forward': forward, 'expire_after_visits': gone_after}
+        case = {'kind': 'vm_iteration', 'population': snap, 'stays': stay, 'iterate': what,
+                'container': snap[0][1 if what.startswith('group') else 2],
+                'forward': rng.random() < 0.5, 'expire_after_visits': rng.randint(0, len(names))}
         n += 1
         chk.count()
-
-        def remaining_now():
-            if what == 'light':
-                return sorted(impl.seen)
-            if what in ('group', 'location'):
-                return sorted({v[which - 1] for v in impl.seen.values()})
-            return sorted(k for k, v in impl.seen.items() if v[which - 1] == container)
-        at_start = remaining_now()
-        visited = []
-        try:
-            if what.endswith('members'):
-                vm.discm(container)
-            else:
-                vm.disc()
-            while reg.result is not Operand.NULL:
-                visited.append(reg.result)
-                if len(visited) > len(at_start) + 2:
-                    break
-                if len(visited) == gone_after:
-                    # the rest of the population is seen again later; the others expire
-                    impl.apply(('A', 5))
-                    impl.apply(('R', stay, 2))
-                if what.endswith('members'):
-                    vm.dnextm(container, visited[-1])
-                else:
-                    vm.dnext(visited[-1])
-        except Exception as ex:  # noqa
-            chk.violation('vm-iteration-raises:' + type(ex).__name__,
-                          'iterating {} ({!r}): {!r}'.format(what, container, ex), replay)
-            continue
-        remaining = remaining_now() if gone_after and gone_after <= len(visited) else at_start
-        bad = []
-        if len(visited) > len(at_start) + 2:
-            bad.append(('vm-iteration-does-not-terminate', 'visited {!r}'.format(visited)))
-        if len(set(visited)) != len(visited):
-            bad.append(('vm-iteration-visits-twice', 'visited {!r}'.format(visited)))
-        for v in remaining:
-            if v in at_start and visited.count(v) != 1:
-                bad.append(('vm-iteration-misses-remaining',
-                            'iterating {} {}: {!r} remains but the visits were {!r}'.format(
-                                what, 'forward' if forward else 'backward', v, visited)))
-        for sig, text in bad:
-            chk.violation(sig, text, replay)
-        if gone_after and gone_after <= len(visited) and len(stay) < len(snap):
-            chk.nontrivial_case(('vm', json.dumps(replay, sort_keys=True)))
+        bad, _, nontrivial = run_vm_iteration(impl, case)
+        for sig, text in bad[:1]:
+            chk.violation(sig, text, case)
+        if nontrivial:
+            chk.nontrivial_case(('vm', json.dumps(case, sort_keys=True)))
     stats['vm_iterations'] = n
 
 
 # ---------------------------------------------------------------- replay of a recorded case
+def history_from_json(ops):
+    return [tuple([op[0]] + [[tuple(e) for e in a] if isinstance(a, list) else a for a in op[1:]])
+            for op in ops]
+
+
+
 def replay_file(path):
     with open(path) as f:
         data = json.load(f)
@@ -786,9 +812,8 @@ def replay_file(path):
     if kind == 'history':
         impl = Impl()
         runner = HistoryRunner(chk, impl)
-        ops = [tuple([op[0]] + [[tuple(e) for e in a] if isinstance(a, list) else a for a in op[1:]])
-               for op in case['ops']]
-        runner.run_history(ops, case.get('probes') or SMALL_PROBES, 'replay')
+        runner.run_history(history_from_json(case['ops']), case.get('probes') or SMALL_PROBES,
+                           'replay')
         runner.flush()
     else:
         env.configure_basic()
@@ -805,9 +830,17 @@ def replay_file(path):
             for sig, text in iteration_problems(case['list'], case['forward'], removed_after,
                                                 visited, ended):
                 chk.violation(sig, text, case)
+        elif kind == 'vm_iteration':
+            for sig, text in run_vm_iteration(Impl(), case)[0]:
+                chk.violation(sig, text, case)
+        elif kind == 'sorted_list_init':
+            init = case['initial']
+            sl = SortedList(init)
+            if list(sl) != ([init] if isinstance(init, str) else sorted(init)):
+                chk.violation('init-not-sorted', 'SortedList({!r}) = {!r}'.format(init, list(sl)), case)
         else:
-            print('replay of kind {!r}: re-run ./check C13 (the case is regenerated from the seed)'
-                  .format(kind))
+            print('unknown replay kind {!r}'.format(kind))
+            sys.exit(2)
     for v in chk.violations:
         print('VIOLATION property=C13 replay={} [{}] {}'.format(path, v['signature'], v['what']))
     if chk.broken:
@@ -828,6 +861,23 @@ def main():
     stats = {}
     runner = HistoryRunner(chk, impl)
 
+    # ---- 0. the corpus: minimised past findings, replayed first
+    corpus_dir = os.path.join(ROOT, 'corpus', 'C13')
+    n_corpus = 0
+    for fn in sorted(os.listdir(corpus_dir)) if os.path.isdir(corpus_dir) else []:
+        if not fn.endswith('.json'):
+            continue
+        with open(os.path.join(corpus_dir, fn)) as f:
+            case = json.load(f)['replay']
+        n_corpus += 1
+        chk.count()
+        if case['kind'] == 'vm_iteration':
+            for sig, text in run_vm_iteration(impl, case)[0][:1]:
+                chk.violation(sig, text, case)
+        elif case['kind'] == 'history':
+            runner.run_history(history_from_json(case['ops']), case['probes'], 'corpus')
+    stats['corpus_cases'] = n_corpus
+
     # ---- 1. exhaustive short histories over the small alphabets
     depth = 4 if chk.thorough else 3
     counts = exhaustive(runner, depth)
@@ -842,7 +892,7 @@ def main():
                            'with age 0 drops b with its memberships'})
 
     # ---- 2. random long histories with renames, moves, vanishing, hostile names
-    n_hist = 2500 if chk.thorough else 250
+    n_hist = 2500 if chk.thorough else 600
     lengths = {}
     for i in range(n_hist):
         length = rng.choice([5, 12, 12, 20, 40])
